@@ -457,6 +457,49 @@ fn rand_op(rng: &mut Rng, n: usize, strings: &[u16]) -> FOp {
 }
 
 // ------------------------------------------------------------------------------------------------
+// A foreign writer that does not intern strings: every place where the format refers to a string *by
+// index* but means it *by name* (labels and jumps, global/function/method/field names, slot and method
+// name fields, print formats) may point at its own copy of the string, appended to the pool. The image
+// denotes the same program; only an implementation that confuses "same index" with "same name" differs.
+
+pub fn without_interning(m: &FModel, seed: u64) -> FModel {
+    let mut rng = Rng::from_u64(seed ^ 0x6e6f_696e_7465_726e);
+    let mut out = m.clone();
+    let is_str = |consts: &Vec<FConst>, i: u16| matches!(consts.get(i as usize), Some(FConst::Str(_)));
+    let mut dup = |consts: &mut Vec<FConst>, i: u16, rng: &mut Rng| -> u16 {
+        if consts.len() >= 65_000 || rng.below(3) != 0 { return i; }
+        if let Some(FConst::Str(s)) = consts.get(i as usize).cloned() {
+            consts.push(FConst::Str(s));
+            (consts.len() - 1) as u16
+        } else {
+            i
+        }
+    };
+    let n = out.consts.len();
+    for k in 0..n {
+        let mut c = out.consts[k].clone();
+        match &mut c {
+            FConst::Slot(name) => { if is_str(&out.consts, *name) { *name = dup(&mut out.consts, *name, &mut rng); } }
+            FConst::Method { name, code, .. } => {
+                if is_str(&out.consts, *name) { *name = dup(&mut out.consts, *name, &mut rng); }
+                for op in code.iter_mut() {
+                    match op {
+                        FOp::Label(x) | FOp::Jump(x) | FOp::Branch(x) | FOp::GetGlobal(x) | FOp::SetGlobal(x) | FOp::GetField(x) | FOp::SetField(x)
+                        | FOp::CallFunction(x, _) | FOp::CallMethod(x, _) | FOp::Print(x, _) => {
+                            if is_str(&out.consts, *x) { *x = dup(&mut out.consts, *x, &mut rng); }
+                        }
+                        _ => {}
+                    }
+                }
+            }
+            _ => {}
+        }
+        out.consts[k] = c;
+    }
+    out
+}
+
+// ------------------------------------------------------------------------------------------------
 // Bridge to the real FML `Program` through its public accessors and constructors only
 // (no serializer code involved).
 
